@@ -46,11 +46,12 @@ class _Buf:
         self._cap = cap
 
     def write(self, b):
+        self._cap._check()
         self._cap._add(bytes(b))
         return len(b)
 
     def flush(self):
-        pass
+        self._cap._check()
 
 
 class Capture(io.TextIOBase):
@@ -63,6 +64,12 @@ class Capture(io.TextIOBase):
         self._events = events
         self._chunks = []
         self.buffer = _Buf(self)
+        self.broken = False   # True: the stream has gone away (the reader of the pipe exited): every write fails with EPIPE
+
+    def _check(self):
+        if self.broken:
+            import errno
+            raise BrokenPipeError(errno.EPIPE, "Broken pipe")
 
     @property
     def encoding(self):
@@ -73,11 +80,12 @@ class Capture(io.TextIOBase):
         self._events.append({"e": "out", "s": self._name, "b": b})
 
     def write(self, s):
+        self._check()
         self._add(s.encode("utf-8", "surrogateescape"))
         return len(s)
 
     def flush(self):
-        pass
+        self._check()
 
     def isatty(self):
         return False
@@ -360,6 +368,7 @@ def _child(wfd, root, argv, cwd, kspec, inject, env, pre, post, want_events, aft
             if code is None:
                 code = 0
             elif not isinstance(code, int):
+                err.broken = False
                 err.write(str(code) + "\n")
                 code = 1
             res["status"] = code
@@ -369,6 +378,7 @@ def _child(wfd, root, argv, cwd, kspec, inject, env, pre, post, want_events, aft
             res["status"] = 1
             res["uncaught"] = type(ex).__name__
             res["uncaught_tb"] = traceback.format_exc()
+            err.broken = False
             err.write(traceback.format_exc())
         if inj is not None:
             res["lines"] = inj.count
